@@ -176,7 +176,9 @@ pub fn run_threads(index: Arc<Index>, threads: &[COp], prefix: &[usize], prefer_
     }
     let mut out = RunOutcome { index: index.clone(), sched: vec![], enabled: vec![], results: vec![String::new(); n], tags: vec![], deadlock: None };
     let mut state: Vec<Option<WState>> = vec![None; n];
-    let wait = Duration::from_secs(10);
+    // generous: on an overloaded machine a freshly spawned worker may not be scheduled for seconds;
+    // a worker cannot block before its first yield point, so this is never a property question
+    let wait = Duration::from_secs(180);
     // every worker runs to its first yield point (or finishes without reaching one)
     let mut pending = n;
     while pending > 0 {
@@ -281,7 +283,7 @@ pub fn run_probe(index: Arc<Index>, threads: &[COp], h: usize, s: usize) -> Opti
         }));
     }
     let mut out = RunOutcome { index: index.clone(), sched: vec![], enabled: vec![], results: vec![String::new(); 2], tags: vec![], deadlock: None };
-    let long = Duration::from_secs(10);
+    let long = Duration::from_secs(180);
     let mut done = [false, false];
     let mut at: [Option<&'static str>; 2] = [None, None];
     for _ in 0..2 {
